@@ -17,7 +17,7 @@ ASSUMPTIONS = ['input space = skool files sna2skool writes from well-formed anno
                'leading/trailing/double blanks, balanced braces in the interior of instruction comments only, @ignoreua:X only next to a comment of type X)',
                'ListRefs=0 (referrer comments off), as the property says']
 MIN_NONTRIVIAL = {'quick': 400, 'thorough': 8000}
-N_CASES = {'quick': 3000, 'thorough': 90000}
+N_CASES = {'quick': 8000, 'thorough': 90000}
 
 def plan(tier, seed):
     n = 16
